@@ -95,14 +95,23 @@ Record WInv (s : sess) (ws : list wire) : Prop := mkWInv {
       pending_ctr x1 = Some c -> pending_ctr x2 = Some c -> e1 = e2
 }.
 
-Lemma winv_init c0 n : WInv (sess_new c0 n) [].
+(** the invariant only looks at the counter and the exchange slots *)
+Lemma winv_ext s s' ws : s_ctr s' = s_ctr s -> s_ex s' = s_ex s -> WInv s ws -> WInv s' ws.
+Proof.
+  intros Hc He I. destruct I. constructor; rewrite ?Hc, ?He; assumption.
+Qed.
+
+Lemma winv_fresh ctr n b c : WInv (mkSess ctr (repeat (mkEx rm_new None) n) b c) [].
 Proof.
   constructor; try (intros; contradiction).
-  - intros e x c Hn Hp. unfold sess_new in Hn. cbn [s_ex] in Hn.
+  - intros e x c' Hn Hp. cbn [s_ex] in Hn.
     apply nth_error_In, repeat_spec in Hn. subst x. discriminate.
-  - intros e1 e2 x1 x2 c Hn _ Hp. unfold sess_new in Hn. cbn [s_ex] in Hn.
+  - intros e1 e2 x1 x2 c' Hn _ Hp. cbn [s_ex] in Hn.
     apply nth_error_In, repeat_spec in Hn. subst x1. discriminate.
 Qed.
+
+Lemma winv_init c0 n : WInv (sess_new c0 n) [].
+Proof. apply winv_fresh. Qed.
 
 (** characterisation of [rm_pre_send] as far as the wire is concerned *)
 Lemma rm_pre_send_facts x ctr rel rm' p :
@@ -146,9 +155,9 @@ Proof.
     intros H; injection H as <- _; reflexivity.
 Qed.
 
-Lemma winv_set_slot_nopending s ws e x x' :
+Lemma winv_set_slot_nopending s ws e x x' b1 b2 :
   WInv s ws -> nth_error (s_ex s) e = Some x -> pending_ctr x' = None ->
-  forall n, s_ctr s <= n -> WInv (mkSess n (set_nth (s_ex s) e x')) ws.
+  forall n, s_ctr s <= n -> WInv (mkSess n (set_nth (s_ex s) e x') b1 b2) ws.
 Proof.
   intros I Hn Hp n Hle. destruct I. constructor; cbn [s_ctr s_ex].
   - intros w Hin. specialize (wi_lt0 _ Hin). lia.
@@ -165,10 +174,10 @@ Proof.
     rewrite nth_set_nth_other in H1, H2 by assumption. eapply wi_distinct0; eassumption.
 Qed.
 
-Lemma winv_set_slot_same s ws e x x' c :
+Lemma winv_set_slot_same s ws e x x' c b1 b2 :
   WInv s ws -> nth_error (s_ex s) e = Some x ->
   pending_ctr x = Some c -> pending_ctr x' = Some c -> piggy x' = piggy x -> ex_pending x' = ex_pending x ->
-  WInv (mkSess (s_ctr s) (set_nth (s_ex s) e x')) ws.
+  WInv (mkSess (s_ctr s) (set_nth (s_ex s) e x') b1 b2) ws.
 Proof.
   intros I Hn Hp Hp' Hpig Hpend. pose proof I as I0. destruct I. constructor; cbn [s_ctr s_ex].
   - exact wi_lt0.
@@ -218,7 +227,7 @@ Proof.
       { unfold pending_ctr, x'. cbn [ex_rm]. rewrite Hr', Hc'. reflexivity. }
       assert (Gx' : piggy x' = piggy x).
       { unfold piggy, x'. cbn [ex_rm]. rewrite Hpig'. exact Hpig. }
-      pose proof (winv_set_slot_same s ws e x x' (r_ctr r) I Hn Hp Px' Gx') as J.
+      pose proof (winv_set_slot_same s ws e x x' (r_ctr r) (s_expired s) (s_case s) I Hn Hp Px' Gx') as J.
       specialize (J (eq_sym Epend)).
       destruct (wi_pending s ws I _ _ _ Hn Hp) as (Hlt & m0 & Hm0 & Hall).
       assert (m0 = m) by congruence. subst m0.
@@ -243,7 +252,8 @@ Proof.
     + apply (winv_set_slot_nopending s ws e x); [exact I|exact Hn| |lia].
       unfold pending_ctr. cbn [ex_rm]. rewrite (rm_pre_send_err _ _ _ _ _ Eps). reflexivity.
   - (* fresh counter *)
-    destruct (N.leb_spec two32 (s_ctr s + 1)) as [Hov|Hok]; cbn [fst snd]; [exact Logic.I|].
+    destruct (N.leb_spec two32 (s_ctr s + 1)) as [Hov|Hok]; cbn [fst snd];
+      [apply (winv_ext s); [reflexivity|reflexivity|exact I]|].
     destruct (rm_pre_send (ex_rm x) (s_ctr s) rel None) as [rm' res] eqn:Eps.
     destruct res as [p|c|pn]; cbn [fst snd]; [| |exact Logic.I].
     2:{ exfalso. unfold rm_pre_send in Eps. rewrite Er in Eps.
@@ -281,7 +291,7 @@ Proof.
           try reflexivity; try lia.
         eapply wi_distinct0; eassumption.
     + rewrite Hretr.
-      pose proof (winv_set_slot_nopending s ws e x (mkEx rm' None)
+      pose proof (winv_set_slot_nopending s ws e x (mkEx rm' None) (s_expired s) (s_case s)
                     (mkWInv _ _ (wi_lt s ws I) (wi_pending s ws I) (wi_unique s ws I) (wi_distinct s ws I)) Hn) as J.
       assert (Pn : pending_ctr (mkEx rm' None) = None).
       { unfold pending_ctr. cbn [ex_rm]. rewrite Hretr. reflexivity. }
@@ -373,7 +383,7 @@ Proof.
       all: destruct (nth_error (s_ex s) e) as [x|]; [|discriminate].
       all: destruct (rm_retr (ex_rm x)) as [r0|].
       all: try (destruct (rm_pre_send (ex_rm x) (r_ctr r0) rel None) as [rm' [?|?|?]]; injection Es as <- ?; try discriminate; assumption).
-      all: try (destruct (two32 <=? s_ctr s + 1); [injection Es as <- _; assumption|]).
+      all: try (destruct (two32 <=? s_ctr s + 1); [discriminate|]).
       all: try (destruct (rm_pre_send (ex_rm x) (s_ctr s) rel None) as [rm' [?|?|?]]; injection Es as <- ?; try discriminate; assumption).
   - pose proof (winv_recv s ws e c a rel I Hstep) as J.
     cbn [step_panics step_state orb] in Hrest.
@@ -458,13 +468,71 @@ Proof.
   - split; [exact IH1|]. intros c Hin. specialize (IH2 _ Hin). lia.
 Qed.
 
-(** the counter never overflows silently: a fresh send at the end of the
-    range panics (checked profile) instead of wrapping to a used value *)
-Theorem counter_exhaustion_panics s e x m rel :
+(** the counter never comes round: a fresh send at the end of the 32-bit
+    range is refused, the session is marked expired and nothing else changes *)
+Theorem counter_exhaustion_refused s e x m rel :
   nth_error (s_ex s) e = Some x -> pending_ctr x = None -> two32 <= s_ctr s + 1 ->
-  snd (sess_send s e m rel) = Panic PANIC_CTR_OVERFLOW.
+  sess_send s e m rel = (mkSess (s_ctr s) (s_ex s) true (s_case s), Err ERR_CTR_EXHAUSTED).
 Proof.
   intros Hn Hp Hov. unfold sess_send, pending_ctr in *. rewrite Hn.
   destruct (rm_retr (ex_rm x)); [discriminate|].
   assert (E : (two32 <=? s_ctr s + 1) = true) by lia. rewrite E. reflexivity.
+Qed.
+
+(** ** every counter on the wire fits the 32-bit field: no two of them alias *)
+
+Lemma step_ctr_bound s o : s_ctr s < two32 -> s_ctr (step_state s o) < two32.
+Proof.
+  intros Hb. destruct o as [e m rel|e c a rel]; cbn [step_state].
+  - unfold sess_send. destruct (nth_error (s_ex s) e) as [x|]; [|exact Hb].
+    destruct (rm_retr (ex_rm x)) as [r|].
+    + destruct (rm_pre_send (ex_rm x) (r_ctr r) rel None) as [rm' [p|c|p]]; cbn [fst s_ctr]; exact Hb.
+    + destruct (N.leb_spec two32 (s_ctr s + 1)) as [Hov|Hok]; [cbn [fst s_ctr]; exact Hb|].
+      destruct (rm_pre_send (ex_rm x) (s_ctr s) rel None) as [rm' [p|c|p]]; cbn [fst s_ctr]; lia.
+  - unfold sess_recv. destruct (nth_error (s_ex s) e) as [x|]; [|exact Hb].
+    destruct (rm_post_recv (ex_rm x) c a rel). cbn [fst s_ctr]. exact Hb.
+Qed.
+
+Lemma run_ctr_bound (ops : list sop) : forall s,
+  s_ctr s < two32 -> s_ctr (fst (fst (sess_run s ops))) < two32.
+Proof.
+  induction ops as [|o t IH]; intros s Hb; [exact Hb|].
+  pose proof (step_ctr_bound s o Hb) as Hb'.
+  destruct o as [e m rel|e c a rel]; cbn [sess_run step_state] in *.
+  - destruct (sess_send s e m rel) as [s' r]. cbn [fst] in Hb'.
+    destruct r as [w|c|p].
+    + specialize (IH s' Hb'). destruct (sess_run s' t) as [[sf out] pn]. exact IH.
+    + apply IH. exact Hb'.
+    + exact Hb'.
+  - destruct (sess_recv s e c a rel) as [s' r]. cbn [fst] in Hb'. apply IH. exact Hb'.
+Qed.
+
+(** the headline theorem from any state without wire history (in particular a
+    session whose counter stands anywhere in the 32-bit range) *)
+Theorem nonce_unique_from (s0 : sess) (ops : list sop) :
+  WInv s0 [] -> honest s0 ops = true ->
+  forall w1 w2, In w1 (snd (fst (sess_run s0 ops))) ->
+                In w2 (snd (fst (sess_run s0 ops))) ->
+                w_ctr w1 = w_ctr w2 -> w1 = w2.
+Proof.
+  intros I0 Hh w1 w2 H1 H2 Hc.
+  pose proof (run_unique_gen ops s0 [] I0 Hh) as J.
+  destruct (sess_run s0 ops) as [[sf out] pn]. cbn [fst snd] in *.
+  rewrite app_nil_r in J.
+  apply (wi_unique sf (rev out) J); [apply in_rev in H1| apply in_rev in H2|exact Hc];
+    rewrite ?rev_involutive in *; assumption.
+Qed.
+
+Theorem wire_ctrs_fit (s0 : sess) (ops : list sop) :
+  WInv s0 [] -> honest s0 ops = true -> s_ctr s0 < two32 ->
+  forall w, In w (snd (fst (sess_run s0 ops))) -> w_ctr w < two32.
+Proof.
+  intros I0 Hh Hb w Hin.
+  pose proof (run_unique_gen ops s0 [] I0 Hh) as J.
+  pose proof (run_ctr_bound ops s0 Hb) as Hf.
+  destruct (sess_run s0 ops) as [[sf out] pn]. cbn [fst snd] in *.
+  rewrite app_nil_r in J.
+  pose proof (wi_lt sf (rev out) J w) as Hlt.
+  assert (In w (rev out)) by (apply in_rev; rewrite rev_involutive; exact Hin).
+  specialize (Hlt H). lia.
 Qed.
